@@ -355,6 +355,8 @@ func ReportElement returns (err)
   loop 2 {
     pre { set rbase := store(rbase, 0, 0) }
     invariant @book DBIs(nl)
+    // the recipes are visited in strictly increasing order of their names - whatever produced the list (C05)
+    invariant @deterministic-order [C05] StrictStr(elems(names), len(names))
     end { let p1 := #i + 1; set rbase := store(rbase, p1, len(list)) }
     invariant @disjoint (arr(list) == 0 || arr(list) >= at(pre2, alloc())) && (forall k string :: {nl[k]} k in nl ==> arr(mapget(nl, k).Elements) < at(pre2, alloc())) && arr(names) < at(pre2, alloc())
     invariant @rows [C07] rbase[0] == 0 && len(list) == rbase[#i] && (forall p int :: {rbase[p]} 0 <= p && p < #i ==> rbase[p + 1] == rbase[p] + CntName(elems(mapget(nl, names[p]).Elements), len(mapget(nl, names[p]).Elements), rec.ElementName))
@@ -365,6 +367,7 @@ func ReportElement returns (err)
   loop 3 {
     pre { unfold CntName(elems(#coll), 0, rec.ElementName) }
     invariant @book DBIs(nl)
+    invariant @deterministic-order [C05] StrictStr(elems(names), len(names))
     invariant @rows [C07] rbase[0] == 0 && len(list) == rbase[#i2] + CntName(elems(#coll), #i, rec.ElementName) && (forall p int :: {rbase[p]} 0 <= p && p < #i2 ==> rbase[p + 1] == rbase[p] + CntName(elems(mapget(nl, names[p]).Elements), len(mapget(nl, names[p]).Elements), rec.ElementName)) && elems(#coll) == elems(mapget(nl, names[#i2]).Elements) && len(#coll) == len(mapget(nl, names[#i2]).Elements) && 0 <= #i2 && #i2 < len(names)
     end { let j1 := #i + 1; unfold CntName(elems(#coll), j1, rec.ElementName) }
     invariant @disjoint (arr(list) == 0 || arr(list) >= at(pre2, alloc())) && (forall k string :: {nl[k]} k in nl ==> arr(mapget(nl, k).Elements) < at(pre2, alloc())) && arr(names) < at(pre2, alloc())
